@@ -411,3 +411,231 @@ Proof.
       * eapply Forall_impl; [|exact Hsids]. intros a Ha. cbn beta in *. cbn [reg_expr emit new_id fst w_next]. lia.
       * constructor; [cbn [reg_expr emit new_id fst w_next]; lia|constructor].
 Qed.
+
+Lemma emit_state_next st s st' sid : emit_state st s = POk (st', sid) -> w_next st <= w_next st'.
+Proof.
+  unfold emit_state. destruct (sort_id st (type_of (st_sym s))) as [st1 sort] eqn:Es.
+  pose proof (sort_id_mono_next _ _ _ _ Es) as H1.
+  destruct (st_init s) as [init|].
+  - destruct (emit_state_init st1 s init) as [[st2 iid]| |] eqn:Ei; cbn [pbind]; try discriminate.
+    assert (H2 : w_next st1 <= w_next st2).
+    { unfold emit_state_init in Ei. destruct (type_of (st_sym s)); [|destruct init]; apply emit_expr_next in Ei; exact Ei. }
+    cbn [new_id]. intros H. inversion H; subst. cbn [emit reg_expr w_next]. lia.
+  - cbn [pbind new_id]. intros H. inversion H; subst. cbn [emit reg_expr w_next]. lia.
+Qed.
+
+Lemma emit_states_next l : forall st st' ids, emit_states st l = POk (st', ids) -> w_next st <= w_next st'.
+Proof.
+  induction l as [|s l IH]; intros st st' ids H; cbn [emit_states] in H.
+  - inversion H; lia.
+  - destruct (emit_state st s) as [[st1 sid]| |] eqn:E1; cbn [pbind] in H; try discriminate.
+    destruct (emit_states st1 l) as [[st2 ids']| |] eqn:E2; cbn [pbind] in H; try discriminate.
+    inversion H; subst. apply emit_state_next in E1. apply IH in E2. lia.
+Qed.
+
+Definition st_ok (s : state) : Prop := state_ok s = true /\ state_fits s.
+
+Lemma states_sim : forall l m st ps ins sts sids st' ids,
+  Inv m st ps -> Sh m ps ins sts sids -> no_props ps ->
+  Forall st_ok l -> NoDup (ins ++ map st_sym sts ++ map st_sym l) ->
+  Forall (fun i => i < w_next st) sids ->
+  emit_states st l = POk (st', ids) -> w_next st' <= BOUND ->
+  exists m' ps', Inv m' st' ps' /\ Sh m' ps' ins (sts ++ l) (sids ++ ids) /\ no_props ps' /\
+                 Forall (fun i => i < w_next st') (sids ++ ids).
+Proof.
+  induction l as [|s l IH]; intros m st ps ins sts sids st' ids Hinv Hsh Hnp Hok Hnd Hsids H Hb; cbn [emit_states] in H.
+  - inversion H; subst. exists m, ps. rewrite !app_nil_r.
+    split; [exact Hinv|]. split; [exact Hsh|]. split; [exact Hnp|exact Hsids].
+  - destruct (emit_state st s) as [[st1 sid]| |] eqn:E1; cbn [pbind] in H; try discriminate.
+    destruct (emit_states st1 l) as [[st2 ids']| |] eqn:E2; cbn [pbind] in H; try discriminate.
+    inversion H; subst st' ids. clear H.
+    apply Forall_cons_iff in Hok. destruct Hok as [[Hso Hsf] Hok].
+    assert (Hn : ~ In (st_sym s) (sm_dom m)).
+    { intros Hin. apply (sh_dom _ _ _ _ _ Hsh) in Hin. cbn [map] in Hnd. rewrite app_assoc in Hnd.
+      apply NoDup_remove_2 in Hnd. apply Hnd. apply in_or_app. left. exact Hin. }
+    pose proof (emit_states_next _ _ _ _ E2) as Hmn.
+    destruct (emit_state_sim m st ps s ins sts sids st1 sid Hinv Hsh Hnp Hso Hsf Hn Hsids E1 ltac:(lia))
+      as (v & ps1 & Hinv1 & Hsh1 & Hnp1 & Hsids1).
+    assert (Hnd' : NoDup (ins ++ map st_sym (sts ++ [s]) ++ map st_sym l)).
+    { rewrite map_app. cbn [map]. rewrite <- !app_assoc. cbn [app]. exact Hnd. }
+    destruct (IH _ _ _ _ _ _ _ _ Hinv1 Hsh1 Hnp1 Hok Hnd' Hsids1 E2 Hb) as (m' & ps' & A & B & C & D).
+    exists m', ps'.
+    replace (sts ++ s :: l) with ((sts ++ [s]) ++ l) by (rewrite <- app_assoc; reflexivity).
+    replace (sids ++ sid :: ids') with ((sids ++ [sid]) ++ ids') by (rewrite <- app_assoc; reflexivity).
+    split; [exact A|]. split; [exact B|]. split; [exact C|exact D].
+Qed.
+
+(** ** outputs, constraints, bad states *)
+Lemma inv_plain_line m st ps l ps' :
+  Inv m st ps -> parse_line true ps l = POk ps' -> p_types ps' = p_types ps -> p_signals ps' = p_signals ps ->
+  Inv m (emit (fst (new_id st)) l) ps'.
+Proof.
+  intros [Hrun Hm Hs He] Hl Ht Hsg. constructor.
+  - apply (run_emit _ l ps); [exact Hrun|exact Hl].
+  - exact Hm.
+  - intros t0 id0 H0. cbn [emit new_id fst w_sorts w_next] in *. destruct (Hs _ _ H0). split; [lia|]. rewrite Ht. assumption.
+  - intros x id0 H0. cbn [emit new_id fst w_exprs w_next] in *. destruct (He _ _ H0) as (A & B & C). split; [lia|]. rewrite Hsg. auto.
+Qed.
+
+Inductive pk : Type := KOut | KCon | KBad.
+Definition kstr (k : pk) : string := match k with KOut => "output" | KCon => "constraint" | KBad => "bad" end.
+Definition klist (k : pk) (ps : pstate) : list expr :=
+  match k with KOut => map snd (p_outputs ps) | KCon => p_constraints ps | KBad => p_bads ps end.
+
+Definition decl_eq (a b : pstate) : Prop :=
+  p_statemap a = p_statemap b /\ p_inputs a = p_inputs b /\ p_states a = p_states b.
+
+Lemma prop_line k ps id body v : id <= U32MAX -> body <= U32MAX ->
+  PM.find (key body) (p_signals ps) = Some v ->
+  exists ps', parse_line true ps [num id; kstr k; num body] = POk ps' /\
+              p_types ps' = p_types ps /\ p_signals ps' = p_signals ps /\ decl_eq ps ps' /\
+              klist k ps' = klist k ps ++ [v] /\ (forall k', k' <> k -> klist k' ps' = klist k' ps).
+Proof.
+  intros Hi Hb Fv. destruct k; cbn [kstr].
+  - destruct (output_line ps id body v Hi Hb Fv) as (ps' & n & Hl & C1 & C2 & C3 & C4 & C5 & C6 & C7 & C8).
+    cbn [add_output p_types p_statemap p_signals p_inputs p_states p_outputs p_bads p_constraints] in *.
+    exists ps'. split; [exact Hl|]. split; [exact C1|]. split; [exact C3|]. split; [repeat split; congruence|]. split.
+    + cbn [klist]. rewrite C6, map_app. reflexivity.
+    + intros k' Hk. destruct k'; cbn [klist]; congruence.
+  - destruct (constraint_line ps id body v Hi Hb Fv) as (ps' & Hl & C1 & C2 & C3 & C4 & C5 & C6 & C7 & C8).
+    cbn [add_constraint p_types p_statemap p_signals p_inputs p_states p_outputs p_bads p_constraints] in *.
+    exists ps'. split; [exact Hl|]. split; [exact C1|]. split; [exact C3|]. split; [repeat split; congruence|]. split.
+    + cbn [klist]. exact C8.
+    + intros k' Hk. destruct k'; cbn [klist]; congruence.
+  - destruct (bad_line ps id body v Hi Hb Fv) as (ps' & Hl & C1 & C2 & C3 & C4 & C5 & C6 & C7 & C8).
+    cbn [add_bad p_types p_statemap p_signals p_inputs p_states p_outputs p_bads p_constraints] in *.
+    exists ps'. split; [exact Hl|]. split; [exact C1|]. split; [exact C3|]. split; [repeat split; congruence|]. split.
+    + cbn [klist]. exact C7.
+    + intros k' Hk. destruct k'; cbn [klist]; congruence.
+Qed.
+
+Lemma rest_eq_klist a b k : rest_eq a b -> klist k a = klist k b.
+Proof. intros (_ & _ & _ & H4 & H5 & H6). destruct k; cbn [klist]; congruence. Qed.
+
+Lemma rest_eq_decl a b : rest_eq a b -> decl_eq a b.
+Proof. intros (H1 & H2 & H3 & _). repeat split; assumption. Qed.
+
+Lemma decl_eq_trans a b c : decl_eq a b -> decl_eq b c -> decl_eq a c.
+Proof. unfold decl_eq. intuition congruence. Qed.
+
+Lemma emit_props_next kind l : forall st st', emit_props kind st l = POk st' -> w_next st <= w_next st'.
+Proof.
+  induction l as [|e l IH]; intros st st' H; cbn [emit_props] in H.
+  - inversion H; lia.
+  - destruct (emit_expr e st) as [[st1 body]| |] eqn:E; cbn [pbind new_id] in H; try discriminate.
+    apply emit_expr_next in E. apply IH in H. cbn [emit w_next] in H. lia.
+Qed.
+
+Definition expr_ok (e : expr) : Prop := wt e = true /\ efits e = true.
+
+Lemma props_sim k m : forall l st ps st',
+  Inv m st ps -> Forall expr_ok l ->
+  emit_props (kstr k) st l = POk st' -> w_next st' <= BOUND ->
+  exists ps', Inv m st' ps' /\ decl_eq ps ps' /\ klist k ps' = klist k ps ++ map (tr m) l /\
+              (forall k', k' <> k -> klist k' ps' = klist k' ps).
+Proof.
+  induction l as [|e l IH]; intros st ps st' Hinv Hok H Hb; cbn [emit_props] in H.
+  - inversion H; subst. exists ps. split; [exact Hinv|]. split; [repeat split|]. split; [cbn [map]; rewrite app_nil_r; reflexivity|auto].
+  - apply Forall_cons_iff in Hok. destruct Hok as [[Hw Hf] Hok].
+    destruct (emit_expr e st) as [[st1 body]| |] eqn:E; cbn [pbind new_id] in H; try discriminate.
+    pose proof (emit_props_next _ _ _ _ H) as Hmn. cbn [emit w_next] in Hmn.
+    destruct (emit_expr_sim m e st st1 body ps Hinv Hw Hf E ltac:(lia)) as (ps1 & Hinv1 & Hr1 & Hfe & Hmo1 & _).
+    destruct (i_exprs _ _ _ Hinv1 _ _ Hfe) as (Hlt & Hsg & _). unfold BOUND in *.
+    destruct (prop_line k ps1 (w_next st1) body (tr m e) ltac:(lia) ltac:(lia) Hsg) as (ps2 & Hl & C1 & C2 & C3 & C4 & C5).
+    pose proof (inv_plain_line m st1 ps1 _ ps2 Hinv1 Hl C1 C2) as Hinv2.
+    destruct (IH _ ps2 st' Hinv2 Hok H Hb) as (ps' & A & B & C & D).
+    exists ps'. split; [exact A|]. split; [eapply decl_eq_trans; [apply rest_eq_decl; exact Hr1|]; eapply decl_eq_trans; eauto|]. split.
+    + rewrite C, C4, <- (rest_eq_klist _ _ k Hr1), <- app_assoc. reflexivity.
+    + intros k' Hk. rewrite (D k' Hk), (C5 k' Hk). symmetry. apply rest_eq_klist. exact Hr1.
+Qed.
+
+(** ** next lines *)
+Lemma update_nth_mid {A} (f : A -> A) (l r : list A) (x : A) :
+  update_nth (List.length l) f (l ++ x :: r) = l ++ f x :: r.
+Proof. induction l as [|y l IH]; cbn [List.length app update_nth]; [reflexivity|]. rewrite IH. reflexivity. Qed.
+
+Lemma nth_mid {A} (l r : list A) (x d : A) : nth (List.length l) (l ++ x :: r) d = x.
+Proof. induction l as [|y l IH]; cbn [List.length app nth]; auto. Qed.
+
+Lemma nth_error_mid {A} (l r : list A) (x : A) : nth_error (l ++ x :: r) (List.length l) = Some x.
+Proof. induction l as [|y l IH]; cbn [List.length app nth_error]; auto. Qed.
+
+Definition props_eq (a b : pstate) : Prop :=
+  p_inputs a = p_inputs b /\ p_statemap a = p_statemap b /\ p_outputs a = p_outputs b /\ p_bads a = p_bads b /\
+  p_constraints a = p_constraints b.
+
+Lemma rest_eq_props a b : rest_eq a b -> props_eq a b.
+Proof. intros (H1 & H2 & H3 & H4 & H5 & H6). repeat split; assumption. Qed.
+
+Lemma props_eq_trans a b c : props_eq a b -> props_eq b c -> props_eq a c.
+Proof. unfold props_eq. intuition congruence. Qed.
+
+Lemma emit_nexts_next l : forall ids st st', emit_nexts st l ids = POk st' -> w_next st <= w_next st'.
+Proof.
+  induction l as [|s l IH]; intros ids st st' H; cbn [emit_nexts] in H; [inversion H; lia|].
+  destruct ids as [|sid ids]; [inversion H; lia|].
+  destruct (st_next s) as [nx|]; [|apply IH in H; exact H].
+  destruct (sort_id st (type_of (st_sym s))) as [st1 sort] eqn:Es.
+  destruct (emit_expr nx st1) as [[st2 nid]| |] eqn:E; cbn [pbind new_id] in H; try discriminate.
+  apply sort_id_mono_next in Es. apply emit_expr_next in E. apply IH in H. cbn [emit w_next] in H. lia.
+Qed.
+
+Lemma nexts_sim m : forall l2 ids2 l1 ids1 st ps st',
+  Inv m st ps ->
+  p_states ps = map (trs m true) l1 ++ map (trs m false) l2 ->
+  (forall j sid, nth_error (ids1 ++ ids2) j = Some sid -> PM.find (key sid) (p_statemap ps) = Some j) ->
+  List.length ids1 = List.length l1 -> List.length ids2 = List.length l2 ->
+  Forall (fun i => i < w_next st) (ids1 ++ ids2) ->
+  Forall st_ok l2 ->
+  emit_nexts st l2 ids2 = POk st' -> w_next st' <= BOUND ->
+  exists ps', Inv m st' ps' /\ p_states ps' = map (trs m true) (l1 ++ l2) /\ props_eq ps ps'.
+Proof.
+  induction l2 as [|s l2 IH]; intros ids2 l1 ids1 st ps st' Hinv Hst Hids Hl1 Hl2 Hlt Hok H Hb; cbn [emit_nexts] in H.
+  - inversion H; subst. exists ps. split; [exact Hinv|]. split; [|repeat split]. rewrite Hst, app_nil_r. cbn [map]. rewrite app_nil_r. reflexivity.
+  - destruct ids2 as [|sid ids2]; [discriminate|]. cbn [List.length] in Hl2. apply Nat.succ_inj in Hl2.
+    apply Forall_cons_iff in Hok. destruct Hok as [[Hso Hsf] Hok].
+    assert (Hassoc1 : (ids1 ++ [sid]) ++ ids2 = ids1 ++ sid :: ids2) by (rewrite <- app_assoc; reflexivity).
+    assert (Hassoc2 : (l1 ++ [s]) ++ l2 = l1 ++ s :: l2) by (rewrite <- app_assoc; reflexivity).
+    assert (Hlen' : List.length (ids1 ++ [sid]) = List.length (l1 ++ [s])) by (rewrite !app_length; cbn [List.length]; lia).
+    destruct (st_next s) as [nx|] eqn:En.
+    + destruct (sort_id st (type_of (st_sym s))) as [st1 sort] eqn:Es.
+      destruct (emit_expr nx st1) as [[st2 nid]| |] eqn:E; cbn [pbind new_id] in H; try discriminate.
+      pose proof (emit_nexts_next _ _ _ _ H) as Hmn. cbn [emit w_next] in Hmn.
+      pose proof (emit_expr_next _ _ _ _ E) as Hmn2.
+      unfold state_ok in Hso. repeat (apply andb_true_iff in Hso; destruct Hso as [Hso ?]).
+      rename H0 into Hnextok, H1 into Hinitok, H2 into Hwsym. rename Hso into Hsym.
+      rewrite En in Hnextok. apply andb_true_iff in Hnextok. destruct Hnextok as [Hwnx Htnx]. apply ty_eqb_eq in Htnx.
+      destruct Hsf as (Hfsym & _ & Hfnx). specialize (Hfnx nx En).
+      destruct (sort_id_sim m st ps (type_of (st_sym s)) st1 sort Hinv (efits_ty _ Hfsym) Es ltac:(lia))
+        as (ps1 & Hinv1 & Hr1 & _ & Hfs & Hmo1 & _).
+      destruct (emit_expr_sim m nx st1 st2 nid ps1 Hinv1 Hwnx Hfnx E ltac:(lia)) as (ps2 & Hinv2 & Hr2 & Hfe & Hmo2 & _).
+      destruct (i_exprs _ _ _ Hinv2 _ _ Hfe) as (Hltn & Hsgn & _).
+      destruct (i_sorts _ _ _ Hinv2 _ _ (proj1 (proj2 Hmo2) _ _ Hfs)) as (Hlts & Hts).
+      pose proof (i_map _ _ _ Hinv) as Hm.
+      pose proof (rest_eq_trans _ _ _ Hr1 Hr2) as Hr12. destruct Hr12 as (R1 & R2 & R3 & R4 & R5 & R6).
+      assert (Hsid : sid < w_next st).
+      { rewrite Forall_forall in Hlt. apply Hlt. apply in_or_app. right. left. reflexivity. }
+      assert (Hmo12 : w_next st <= w_next st2) by (destruct Hmo1, Hmo2; lia).
+      unfold BOUND in *.
+      assert (Hl : parse_line true ps2 [num (w_next st2); "next"; num sort; num sid; num nid] =
+                   POk (set_states ps2 (update_nth (List.length l1) (set_next (tr m nx)) (p_states ps2)))).
+      { apply (next_line ps2 (w_next st2) sort sid nid (type_of (st_sym s)) (List.length l1) (tr m nx)); try lia; auto.
+        - rewrite <- R1. apply Hids. rewrite <- Hl1. apply nth_error_mid.
+        - rewrite <- R3, Hst. cbn [map]. rewrite <- (map_length (trs m true) l1). rewrite nth_mid. cbn [trs st_sym].
+          apply sm_app_type. exact Hm.
+        - rewrite (tr_type m nx Hm Hwnx). exact Htnx. }
+      pose proof (inv_plain_line m st2 ps2 _ _ Hinv2 Hl eq_refl eq_refl) as Hinv3.
+      destruct (IH ids2 (l1 ++ [s]) (ids1 ++ [sid]) _ _ st' Hinv3) as (ps' & A & B & C); auto.
+      * cbn [set_states p_states]. rewrite <- R3, Hst. cbn [map]. rewrite <- (map_length (trs m true) l1) at 1.
+        rewrite update_nth_mid, map_app. cbn [map]. rewrite <- app_assoc. cbn [app]. f_equal. f_equal.
+        unfold set_next, trs. cbn [st_sym st_init st_next]. rewrite En. reflexivity.
+      * intros j i Hj. cbn [set_states p_statemap]. rewrite <- R1. apply Hids. rewrite <- Hassoc1. exact Hj.
+      * rewrite Hassoc1. eapply Forall_impl; [|exact Hlt]. intros a Ha. cbn beta in *. cbn [emit new_id fst w_next]. lia.
+      * exists ps'. split; [exact A|]. split; [rewrite <- Hassoc2; exact B|].
+        eapply props_eq_trans; [|exact C]. cbn [set_states]. repeat split; cbn; congruence.
+    + destruct (IH ids2 (l1 ++ [s]) (ids1 ++ [sid]) st ps st' Hinv) as (ps' & A & B & C); auto.
+      * rewrite Hst, map_app. cbn [map]. rewrite <- app_assoc. cbn [app]. f_equal. f_equal. unfold trs. rewrite En. reflexivity.
+      * intros j i Hj. apply Hids. rewrite <- Hassoc1. exact Hj.
+      * rewrite Hassoc1. exact Hlt.
+      * exists ps'. split; [exact A|]. split; [rewrite <- Hassoc2; exact B|exact C].
+Qed.
